@@ -192,7 +192,9 @@ class G(object):
         """(args, kwargs) accepted by Epoch.check_input_date-style functions."""
         r = self.rng.random()
         if allow_epoch and r < 0.5:
-            return [self.ep(y0, y1)], {}
+            # the time-scale keywords are documented for every input form (with an Epoch they are ignored today)
+            kw = self.date_kwargs(2000, allow_local) if self.rng.random() < 0.3 else {}
+            return [self.ep(y0, y1)], kw
         y, m, d = self.ymd(y0 + 1, y1 - 1)
         kw = self.date_kwargs(y, allow_local)
         r = self.rng.random()
